@@ -92,11 +92,13 @@ pub fn parse_files(
         }
         [] => {
             // TODO: Maybe use a flag to ensure that a main component must be present.
+            reports.append(&mut duplicate_definition_reports(&definitions));
             let template_library = TemplateLibrary::new(definitions, file_library);
             ParseResult::Library(Box::new(template_library), reports)
         }
         _ => {
             reports.push(errors::MultipleMainError::produce_report());
+            reports.append(&mut duplicate_definition_reports(&definitions));
             let template_library = TemplateLibrary::new(definitions, file_library);
             ParseResult::Library(Box::new(template_library), reports)
         }
@@ -164,6 +166,24 @@ pub fn parse_file(
         }
     }
     Ok((file_id, program, reports))
+}
+
+/// Reports the definitions whose name is already used by an earlier definition (of any of the
+/// files, in file ID order). Used when no program archive is built, since a template library
+/// keeps one definition per name.
+fn duplicate_definition_reports(
+    definitions: &HashMap<FileID, Vec<program_structure::ast::Definition>>,
+) -> ReportCollection {
+    let mut merger = program_structure::program_merger::Merger::new();
+    let mut file_ids: Vec<FileID> = definitions.keys().copied().collect();
+    file_ids.sort_unstable();
+    let mut reports = ReportCollection::new();
+    for file_id in file_ids {
+        if let Err(mut errors) = merger.add_definitions(file_id, &definitions[&file_id]) {
+            reports.append(&mut errors);
+        }
+    }
+    reports
 }
 
 fn open_file(file_path: &PathBuf) -> Result<(String, String), Box<Report>> /* path, src*/ {
